@@ -69,6 +69,19 @@ namespace
     };
     long Handle::dtors = 0;
     int val_of(const Handle &t) { return t.v; }
+    // a recursive value type that can be built from a list of itself (a JSON-like value): relocating such an element must
+    // move it, not wrap it in a one-element list
+    struct Nest
+    {
+        int v;
+        std::vector<Nest> kids;
+        Nest(int x = 0) : v(x) {}
+        Nest(std::initializer_list<Nest> l) : v(-1), kids(l) {}
+        bool operator==(const Nest &o) const { return v == o.v && kids == o.kids; }
+        bool operator!=(const Nest &o) const { return !(*this == o); }
+        bool operator<(const Nest &o) const { return v != o.v ? v < o.v : kids.size() < o.kids.size(); }
+    };
+    int val_of(const Nest &t) { return t.kids.empty() ? t.v : -100000 - (int)t.kids.size(); }
     template <class E> long dtor_count() { return -1; }
     template <> long dtor_count<Handle>() { return Handle::dtors; }
 
@@ -703,6 +716,7 @@ int main(int argc, char **argv)
     VecWorld<tracked::T> wt(PROP_WORLD "<Tracked>", true);
     VecWorld<Loose> wl(PROP_WORLD "<trivially-copyable-with-own-equality>", false);
     VecWorld<Handle> wh(PROP_WORLD "<implicit-copy-with-own-destructor>", false);
+    VecWorld<Nest> wn(PROP_WORLD "<value-constructible-from-a-list-of-itself>", false);
     Harness h;
     h.property = "C02";
     h.worlds = {&wi, &wt};
@@ -715,6 +729,7 @@ int main(int argc, char **argv)
 #endif
     h.worlds.push_back(&wl);
     h.worlds.push_back(&wh);
+    h.worlds.push_back(&wn);
     h.stub = {"SimAlloc behind the Allocator parameter (exact-size blocks, seed-chosen fill and reuse)", "Tracked element type (lifetime registry)", "std::vector / std::map / std::set reference"};
     return harness_main(h, argc, argv);
 }
